@@ -73,6 +73,8 @@ func Caches(c *Cache, k string) {
 	}
 }
 
+const pattern = "*.go"
+
 type Matcher struct{ *regexp.Regexp }
 
 func (Matcher) Match(b []byte) bool           { return false }
@@ -81,6 +83,9 @@ func (Matcher) FindAllIndex(b []byte, n int) [][]int { return nil }
 
 func Matchers(m Matcher, s string) bool {
 	_ = m.FindIndex([]byte(s))
+	_ = m.Match([]byte("main.go"))
+	_ = m.FindIndex([]byte("main" + ".go"))
+	_ = m.FindAllIndex([]byte(pattern), 1)
 	_ = m.FindAllIndex([]byte(s), -1)
 	return m.Match([]byte(s))
 }
